@@ -99,3 +99,48 @@ def c03(ctx):
     ctx.rule = ("cross product method class x Content-Length multiset x Transfer-Encoding multiset x Expect (single "
                 "messages) plus random header multisets, and wires of 1..8 concatenated messages (valid, bodiless, "
                 "unknown-length, ambiguous) with bodies that look like requests, read back under random fragmentation")
+
+
+# ---------------------------------------------------------------------------------- C01 / C02
+reg("head-gen", "Trace_Head")
+reg("head-splits", "Trace_Head")
+reg("head-tcp", "Trace_Head")
+
+C01_TAGS = ("BAD-panic", "BAD-trunc", "BAD-consumed", "BAD-split", "BAD-loop", "BAD-task-panic", "BAD-no-answer")
+C02_TAGS = ("BAD-panic", "BAD-consumed", "BAD-accept", "BAD-reject", "BAD-free", "BAD-split-accept", "BAD-tcp-status")
+
+
+def _tags(prefixes):
+    return lambda why: any(t.startswith(p) for t in why for p in prefixes)
+
+
+@prop("C01")
+def c01(ctx):
+    ctx.mc("ReadHead", "MC_ReadHead" if ctx.quick else "MC_ReadHead6", workers=12, timeout=1800)
+    sp = ctx.drive("head-splits", maxlen=5 if ctx.quick else 6, extra=0 if ctx.quick else 1, timeout=3000)
+    ctx.validate("Trace_Head", sp, "head-splits", keep=_tags(C01_TAGS))
+    hg = ctx.drive("head-gen", n=3000 if ctx.quick else 100000)
+    ctx.validate("Trace_Head", hg, "head-gen", keep=_tags(C01_TAGS), shards=12, timeout=3000)
+    tcp = ctx.drive("head-tcp", n=200 if ctx.quick else 3000)
+    ctx.validate("Trace_Head", tcp, "head-tcp", keep=_tags(C01_TAGS))
+    ctx.exhaustive = True
+    ctx.rule = ("(a) every string up to length 5 (quick) / 6 (thorough) over {a, SP, ':', CR, LF, '/'} (+0x80, NUL, "
+                "HTAB thorough) x buffer sizes 4 and 6, and eight short heads x five buffer sizes, each under EVERY "
+                "partition into reads (the set of distinct outcomes is logged: it must be a singleton equal to the "
+                "oracle); (b) grammar-derived heads over all byte values with 1-2 byte mutations, sizes up to 8192+64, "
+                "under a random partition and random end of stream; (c) a sample through a real server over TCP")
+    ctx.assumptions += ["a hang is observed as a future still pending after len+6 polls with nothing left to deliver"]
+
+
+@prop("C02")
+def c02(ctx):
+    ctx.mc("ReadHead", "MC_ReadHead", workers=12)
+    hg = ctx.drive("head-gen", n=6000 if ctx.quick else 200000)
+    ctx.validate("Trace_Head", hg, "head-gen", keep=_tags(C02_TAGS), shards=12, timeout=3000)
+    tcp = ctx.drive("head-tcp", n=100 if ctx.quick else 2000)
+    ctx.validate("Trace_Head", tcp, "head-tcp", keep=_tags(C02_TAGS))
+    ctx.rule = ("heads generated from the RFC 7230 section 3 grammar (every tchar in methods/names, every VCHAR/SP/HTAB "
+                "in values, 0..40 fields, OWS variants) and their 1-2 byte substitutions/insertions/deletions; each "
+                "classified by Head!RefParse as must-accept (fields compared exactly), must-reject (error class "
+                "compared) or free (internal consistency only)")
+    ctx.level = "model_checking"
